@@ -137,10 +137,13 @@ claim("C14",
       "Proof of the selector semantics as one function: Labels.Matches is pinned down operator by operator for every label map and term (existence, equality, "
       "set membership, lexical < and <=, inversion, missing labels never satisfy a comparison and satisfy an inverted non-comparison, empty value lists), "
       "LabelQuery.Matches is exactly the AND of its terms and LabelQueries.Matches exactly the OR of its queries (loops with invariants; empty query and empty "
-      "list match everything); the server-side translation of label queries applies inversion per term (C11 assertions).",
+      "list match everything); the server-side translation of label queries applies inversion per term (C11 assertions); the event filter of the kind watch "
+      "passes Created/Destroyed events of selected resources only, turns an update into the selection into Created and one out of it into Destroyed (both without "
+      "Old), passes updates inside it unchanged and drops updates outside it.",
       COMMON + "Numeric comparison with unit suffixes (compare.GetNumbers) is string parsing and trusted; IDQuery.Matches (regular expressions) trusted. Not under "
-      "contract: that List and the filtered watch apply this function to every resource and rewrite events when the match status changes (collection.List sorts "
-      "its result with sort.Slice, the watch filter closure is trusted), the runtime cache list, the client-side query translation. An operator outside the "
+      "contract: that List and the watch apply the filter to every resource/event (collection.List sorts its result with sort.Slice; filterInPlaceMutating, which "
+      "applies the event filter to each event, is trusted), the runtime cache list, the client-side query translation. selected(r) abstracts the selector "
+      "closure as a function of the resource (definitional clause). An operator outside the "
       "enumeration makes Matches panic by design (may_panic).",
       "DESIGN.md §6 C14")
 NOT_BUILT = "not built yet in this round (engine in progress); see DESIGN.md §6 for the planned contracts"
